@@ -54,7 +54,9 @@ impl<'t, 'a> ArrGen<'t, 'a> {
     }
 
     fn scalar(&mut self) -> Expr {
-        match self.t.pick(8) {
+        match self.t.pick(9) {
+            // not-a-number: an array that holds it equals nothing, itself and its untouched copies included
+            8 => var(&Name::Simple("notanumber".into())),
             0 => num(1.0),
             1 => num(2.5),
             2 => strlit("s"),
@@ -153,7 +155,9 @@ impl<'t, 'a> ArrGen<'t, 'a> {
                 }
                 self.copy_then_mutate = true;
                 let x0 = self.vars[0].clone();
-                (vec![put(pe(Primary::Call(Name::Simple("shadowmutator".into()), vec![var(&x0)])), &yn)], true)
+                // ... which returns at its end, or from inside a loop
+                let f = if self.t.chance(1, 2) { "shadowmutator" } else { "loopreturner" };
+                (vec![put(pe(Primary::Call(Name::Simple(f.into()), vec![var(&x0)])), &yn), say(var(&x0))], true)
             }
             13 => {
                 // the position comes from a queue (a subscript with a side effect: evaluated once per statement)
@@ -287,7 +291,10 @@ impl<'t, 'a> ArrGen<'t, 'a> {
             }
             6 => {
                 // arrays in comparisons, arithmetic and printing
-                let e = match self.t.pick(8) {
+                let e = match self.t.pick(11) {
+                    8 => bin(BinOp::Eq, var(&xn), var(&xn)),
+                    9 => bin(BinOp::NotEq, var(&xn), var(&yn)),
+                    10 => bin(BinOp::NotEq, var(&xn), var(&xn)),
                     0 => bin(BinOp::Eq, var(&xn), var(&yn)),
                     1 => bin(BinOp::Plus, var(&xn), num(1.0)),
                     2 => bin(BinOp::Eq, var(&xn), num(self.t.pick(4) as f64)),
@@ -389,6 +396,7 @@ impl<'t, 'a> ArrGen<'t, 'a> {
         let prelude = vec![
             put(un(UnOp::Minus, num(1.0)), &self.neg.clone()),
             put(num(0.5), &self.frac.clone()),
+            put(bin(BinOp::Divide, num(0.0), num(0.0)), &Name::Simple("notanumber".into())),
             Stmt::Function {
                 name: self.mutator.clone(),
                 params: vec![mp.clone()],
@@ -419,6 +427,19 @@ impl<'t, 'a> ArrGen<'t, 'a> {
                     Stmt::Pop { array: Primary::Ident(Ident::Pronoun), dest: None },
                     Stmt::Return { value: var(&self.vars[0].clone()) },
                 ],
+            },
+            // the same, leaving through a return inside a loop after changing the parameter
+            Stmt::Function {
+                name: Name::Simple("loopreturner".into()),
+                params: vec![self.vars[0].clone()],
+                body: vec![Stmt::While {
+                    cond: Expr::Primary(Primary::Lit(Lit::Bool(true))),
+                    body: vec![
+                        Stmt::Push { array: pvar(&self.vars[0].clone()), value: Some(PushRhs::List(vec![num(55.0)])) },
+                        Stmt::Pop { array: pvar(&self.vars[0].clone()), dest: None },
+                        Stmt::If { cond: Expr::Primary(Primary::Lit(Lit::Bool(true))), then: vec![Stmt::Return { value: var(&self.vars[0].clone()) }], els: None },
+                    ],
+                }],
             },
             // positions handed out one at a time
             Stmt::Push { array: pvar(&Name::Simple("slots".into())), value: Some(PushRhs::List([0.0, 1.0, 2.0, 0.0, 1.0, 3.0, 2.0, 0.0, 1.0, 2.0, 1.0, 0.0].iter().map(|n| num(*n)).collect())) },
